@@ -92,7 +92,7 @@ def scenario_case(r):
         elif kind in ("unsub", "disc"):
             pend = {"": 0, "done": 1, "blocked": 2}[o.get("pending", "")]
             ops.append("(%s %d, (%d, %s, %d))" % ("SUnsub" if kind == "unsub" else "SDisc", o["k"], code, zl(hashes[n] for n in (o.get("got") or [])), pend))
-            if o["res"] == "removed":
+            if o["res"] == "removed" and o["k"] in present:
                 present.remove(o["k"])
         elif kind == "pub":
             hashes[o["n"]] = core.hash_bytes(o["hex"])
